@@ -9,5 +9,12 @@ cp /repo/go.sum go.sum.repo
 cat go.sum.repo go.sum.extra 2>/dev/null | sort -u > go.sum
 rm -f go.sum.repo
 mkdir -p "$V/.bin"
+go build -o "$V/.bin/vinstr" ./cmd/vinstr
+OV="$V/.bin/overlay"
+if "$V/.bin/vinstr" -repo /repo -shim "$V/shim" -out "$OV" && go build -overlay "$OV/overlay.json" -tags verifx -o "$V/.bin/vcheck" ./cmd/vcheck; then
+  echo "$V/.bin/vcheck"
+  exit 0
+fi
+echo "instrumented build failed; building the plain harness (checks that need the overlay are unavailable)"
 go build -o "$V/.bin/vcheck" ./cmd/vcheck
 echo "$V/.bin/vcheck"
